@@ -433,6 +433,11 @@ public:
             nev_adj = nev_adjusted(nconv);
             restart(nev_adj, selection);
         }
+        // If the loop ended by exhausting maxit, the Ritz pairs were updated by the
+        // last restart after the convergence flags had been computed, so the flags
+        // must be refreshed to describe the pairs that are actually returned
+        if (i >= maxit)
+            nconv = num_converged(tol);
         // Sorting results
         sort_ritzpair(sorting);
 
